@@ -7,9 +7,18 @@ package main
 // AuthResponseURL), the others are answered completely meanwhile, then the first one is released.  Deterministic: channels
 // order the steps, no timing.  Each response is one line and is judged against ITS OWN request: the state that arrives must be
 // the state that client sent.  Schedules: `A(B)A`, `A(BC)A`, and `AB` (sequential) for comparison.
+//
+// Groups that are handed ONE error value: `storage-sentinel` (finished logins whose SaveAuthCode fails with one sentinel
+// *oidc.Error of the storage, through the real op.AuthorizeCallback) and `sentinel-direct` (op.AuthRequestError /
+// op.TryErrorRedirect called with that sentinel — as it is, wrapped with fmt.Errorf("%w"), or inside an op.StatusError — for
+// requests that also have a session_state; park point inside the schema encoder, i.e. inside AuthResponseURL).  The sentinel's
+// State / SessionState before and after the group are on the line (`par.h0*`, `par.h1*`): the model driver runs the regenerated
+// statement lists of both functions (GenErr.*Program) under the group's schedule and must predict both what each response
+// carries and what the sentinel holds afterwards.
 
 import (
 	"bufio"
+	"context"
 	"fmt"
 	"net/http"
 	"net/http/httptest"
@@ -28,8 +37,22 @@ import (
 // c11ParAuthorizer: the real provider; the encoder getter is the park point
 type c11ParAuthorizer struct {
 	op.Authorizer
-	enc  *c11SeqEncoder
+	enc  *c11ParEncoder
 	park func()
+}
+
+// c11ParEncoder: records what is encoded (c11SeqEncoder); a second park point, INSIDE AuthResponseURL, before the error value is read
+type c11ParEncoder struct {
+	*c11SeqEncoder
+	park func()
+}
+
+func (e *c11ParEncoder) Encode(src any, dst map[string][]string) error {
+	if p := e.park; p != nil {
+		e.park = nil
+		p()
+	}
+	return e.c11SeqEncoder.Encode(src, dst)
 }
 
 func (a *c11ParAuthorizer) Encoder() httphelper.Encoder {
@@ -44,11 +67,17 @@ func (a *c11ParAuthorizer) Encoder() httphelper.Encoder {
 var c11StorageSentinel = oidc.ErrAccessDenied().WithDescription("storage: the user may not use this client")
 
 type c11ParReq struct {
-	errKind string // callback-not-done | scope-missing | prompt-none | request-unsupported
+	errKind string // callback-not-done | scope-missing | prompt-none | request-unsupported | storage-sentinel | sentinel-direct
 	u       c11URI
 	mode    oidc.ResponseMode
 	state   string
-	id      string // auth request id (callback kind)
+	session string       // sentinel-direct: the session_state of the request
+	fn      string       // which function of pkg/op/error.go answers: AuthRequestError | TryErrorRedirect
+	direct  *c11AuthReq  // sentinel-direct: the request the function is called with
+	handed  error        // sentinel-direct: the error value the function is handed
+	wrap    string       // sentinel-direct: how the sentinel is wrapped
+	red     *op.Redirect // TryErrorRedirect's answer
+	id      string       // auth request id (callback kind)
 	q       url.Values
 	authz   *c11ParAuthorizer
 	w       *httptest.ResponseRecorder
@@ -62,6 +91,15 @@ func (p *c11ParReq) serve() {
 		}
 	}()
 	p.w = httptest.NewRecorder()
+	if p.direct != nil {
+		r := httptest.NewRequest(http.MethodGet, "/authorize/callback?id=x", nil)
+		if p.fn == "TryErrorRedirect" {
+			p.red, _ = op.TryErrorRedirect(context.Background(), p.direct, p.handed, p.authz.enc, c11Discard)
+			return
+		}
+		op.AuthRequestError(p.w, r, p.direct, p.handed, p.authz)
+		return
+	}
 	if p.id != "" {
 		r := httptest.NewRequest(http.MethodGet, "/authorize/callback?id="+url.QueryEscape(p.id), nil)
 		op.AuthorizeCallback(p.w, r.WithContext(op.ContextWithIssuer(r.Context(), opbed.Issuer)), p.authz)
@@ -73,10 +111,27 @@ func (p *c11ParReq) serve() {
 
 // c11ParRun emits one group of overlapping error responses; returns false when the group could not be set up
 func c11ParRun(r *hx.Rand, tier string, parNo int, w *bufio.Writer, stats map[string]int, bed *opbed.Bed) bool {
+	return c11ParGroup(r, tier, parNo, w, stats, bed, "", "")
+}
+
+// c11ParPreamble: the situation of F-C11e, once per run whatever the seed draws — two requests that are handed the storage's one
+// sentinel error, the first parked before its answer is encoded (A(B)A): through op.AuthorizeCallback, and directly through each
+// of the two functions of pkg/op/error.go
+func c11ParPreamble(r *hx.Rand, tier string, w *bufio.Writer, stats map[string]int, bed *opbed.Bed) {
+	c11ParGroup(r, tier, 90001, w, stats, bed, "storage-sentinel", "AuthRequestError")
+	c11ParGroup(r, tier, 90002, w, stats, bed, "sentinel-direct", "AuthRequestError")
+	c11ParGroup(r, tier, 90003, w, stats, bed, "sentinel-direct", "TryErrorRedirect")
+}
+
+// c11ParGroup: forceKind / forceFn != "" fix the group's kind, the schedule A(B)A and the answering function
+func c11ParGroup(r *hx.Rand, tier string, parNo int, w *bufio.Writer, stats map[string]int, bed *opbed.Bed, forceKind, forceFn string) bool {
 	n := 2 + r.Intn(2)
 	sched := hx.Pick(r, "A(B)A", "A(B)A", "A(B)A", "AB")
 	if n == 3 {
 		sched = hx.Pick(r, "A(BC)A", "A(BC)A", "ABC")
+	}
+	if forceKind != "" {
+		n, sched = 2, "A(B)A"
 	}
 	// all requests of a group fail the same way (that is when they would meet in the same error value), sometimes differently
 	kinds := []string{"callback-not-done", "callback-not-done", "scope-missing", "prompt-none", "request-unsupported"}
@@ -84,19 +139,26 @@ func c11ParRun(r *hx.Rand, tier string, parNo int, w *bufio.Writer, stats map[st
 	if r.Chance(12) {
 		// the storage refuses to save the code of a finished login with ITS sentinel error (one value for all requests)
 		groupKind = "storage-sentinel"
+	} else if r.Chance(14) {
+		// the functions of pkg/op/error.go are handed that one value directly
+		groupKind = "sentinel-direct"
 	}
+	if forceKind != "" {
+		groupKind = forceKind
+	}
+	sentinelGroup := groupKind == "storage-sentinel" || groupKind == "sentinel-direct"
 	modes := []oidc.ResponseMode{"", oidc.ResponseModeQuery, oidc.ResponseModeFragment, oidc.ResponseModeFormPost}
 	var reqs []*c11ParReq
 	for i := 0; i < n; i++ {
 		kind := groupKind
-		if r.Chance(15) && groupKind != "storage-sentinel" {
+		if r.Chance(15) && !sentinelGroup {
 			kind = kinds[r.Intn(len(kinds))]
 		}
-		p := &c11ParReq{errKind: kind, mode: modes[r.Intn(len(modes))]}
+		p := &c11ParReq{errKind: kind, mode: modes[r.Intn(len(modes))], fn: "AuthRequestError"}
 		p.u = c11URI{c11FlowWebURIs[r.Intn(len(c11FlowWebURIs))], "flow-web"}
 		for {
 			p.state = c11Value(r, false, tier).s
-			if p.state != "" || r.Chance(30) {
+			if p.state != "" || (forceKind == "" && r.Chance(30)) {
 				break
 			}
 		}
@@ -109,6 +171,22 @@ func c11ParRun(r *hx.Rand, tier string, parNo int, w *bufio.Writer, stats map[st
 			q.Set("response_mode", string(p.mode))
 		}
 		switch kind {
+		case "sentinel-direct":
+			p.session = hx.Pick(r, "", c11Value(r, false, tier).s, c11Value(r, false, tier).s)
+			p.fn = hx.Pick(r, "AuthRequestError", "TryErrorRedirect")
+			if forceFn != "" {
+				p.fn = forceFn
+			}
+			p.direct = &c11AuthReq{id: "ar-c11-par", clientID: "web", uri: p.u.s, state: p.state, sessionState: p.session, rtype: oidc.ResponseTypeCode, mode: p.mode}
+			p.wrap = hx.Pick(r, "none", "none", "errorf", "status")
+			switch p.wrap {
+			case "errorf":
+				p.handed = fmt.Errorf("storage: %w", c11StorageSentinel)
+			case "status":
+				p.handed = op.NewStatusError(c11StorageSentinel, http.StatusForbidden)
+			default:
+				p.handed = c11StorageSentinel
+			}
 		case "callback-not-done", "storage-sentinel":
 			resp := bed.Do(bed.Get("/authorize", q, ""))
 			if resp.Loc != nil && strings.HasPrefix(resp.Loc.Path, "/login") {
@@ -129,9 +207,11 @@ func c11ParRun(r *hx.Rand, tier string, parNo int, w *bufio.Writer, stats map[st
 			q.Set("request", "eyJhbGciOiJub25lIn0.e30.")
 		}
 		p.q = q
-		p.authz = &c11ParAuthorizer{Authorizer: bed.Provider, enc: &c11SeqEncoder{real: oidc.NewEncoder()}}
+		p.authz = &c11ParAuthorizer{Authorizer: bed.Provider, enc: &c11ParEncoder{c11SeqEncoder: &c11SeqEncoder{real: oidc.NewEncoder()}}}
 		reqs = append(reqs, p)
 	}
+	// the sentinel as it is before the group (a value of the storage: nobody but the storage should ever change it)
+	h0, h0s := c11StorageSentinel.State, c11StorageSentinel.SessionState
 	if groupKind == "storage-sentinel" {
 		bed.Store.FailMethod("SaveAuthCode", c11StorageSentinel)
 		defer bed.Store.ClearFaults()
@@ -140,7 +220,12 @@ func c11ParRun(r *hx.Rand, tier string, parNo int, w *bufio.Writer, stats map[st
 	if strings.Contains(sched, "(") {
 		a := reqs[0]
 		entered, release, done := make(chan struct{}), make(chan struct{}), make(chan struct{})
-		a.authz.park = func() { close(entered); <-release }
+		parkFn := func() { close(entered); <-release }
+		if a.fn == "TryErrorRedirect" || (a.direct != nil && r.Chance(50)) {
+			a.authz.enc.park = parkFn // inside AuthResponseURL, before the schema encoder reads the error value
+		} else {
+			a.authz.park = parkFn // the Encoder() getter: the last argument of AuthResponseURL
+		}
 		go func() { defer close(done); a.serve() }()
 		select {
 		case <-entered:
@@ -163,11 +248,29 @@ func c11ParRun(r *hx.Rand, tier string, parNo int, w *bufio.Writer, stats map[st
 			p.serve()
 		}
 	}
+	h1, h1s := c11StorageSentinel.State, c11StorageSentinel.SessionState
+	// the storage's own value is put back: a library that wrote into it must not spoil the groups that follow
+	c11StorageSentinel.State, c11StorageSentinel.SessionState = "", ""
+	var gStates, gSess, gFn, gCell []string
+	for i, p := range reqs {
+		gStates, gSess, gFn = append(gStates, c11Hex(p.state)), append(gSess, c11Hex(p.session)), append(gFn, p.fn)
+		if sentinelGroup {
+			gCell = append(gCell, "0") // all of them are handed the same object
+		} else {
+			gCell = append(gCell, fmt.Sprint(i+1))
+		}
+	}
 	for i, p := range reqs {
 		obs := c11Obs{status: p.w.Code, loc: p.w.Header().Get("Location")}
 		switch {
 		case p.panic:
 			obs.kind = "panic"
+		case p.direct != nil && p.fn == "TryErrorRedirect":
+			if p.red != nil {
+				obs.kind, obs.loc = "redirect", p.red.URL
+			} else {
+				obs.kind = "refused"
+			}
 		case p.w.Code == http.StatusFound && obs.loc != "":
 			obs.kind = "redirect"
 		case p.w.Code == http.StatusOK:
@@ -189,20 +292,33 @@ func c11ParRun(r *hx.Rand, tier string, parNo int, w *bufio.Writer, stats map[st
 		produced := p.authz.enc.first
 		expected := map[string][]string{}
 		for k, v := range produced {
-			if k != "state" {
+			if k != "state" && !(k == "session_state" && p.direct != nil) {
 				expected[k] = v
 			}
 		}
 		if p.state != "" {
 			expected["state"] = []string{p.state}
 		}
+		if p.direct != nil && p.session != "" {
+			expected["session_state"] = []string{p.session}
+		}
 		l.L("p", c11Produced(expected))
 		if pe, pp := c11Produced(produced), c11Produced(expected); strings.Join(pe, ",") != strings.Join(pp, ",") {
 			l.L("e", pe)
 			stats["par-encoded-differs-from-sent"]++
 		}
-		l.B("pct", false).B("safe", true).B("direct", false)
+		l.B("pct", false).B("safe", true).B("direct", p.direct != nil && p.fn == "TryErrorRedirect")
 		l.I("par", int64(parNo)).I("par.i", int64(i)).S("par.sched", sched).S("par.err", p.errKind).B("par.parked", parked && i == 0)
+		l.S("par.fn", p.fn).B("par.g.parked", parked).L("par.g.states", gStates).L("par.g.sess", gSess).L("par.g.fn", gFn).L("par.g.cell", gCell)
+		if p.direct != nil {
+			l.S("par.wrap", p.wrap)
+		}
+		if sentinelGroup {
+			l.B("par.h", true).S("par.h0", c11Hex(h0)).S("par.h0s", c11Hex(h0s)).S("par.h1", c11Hex(h1)).S("par.h1s", c11Hex(h1s))
+			if h0 != h1 || h0s != h1s {
+				stats["par-sentinel-changed"]++
+			}
+		}
 		l.S("obs", obs.kind)
 		switch obs.kind {
 		case "redirect":
